@@ -677,6 +677,26 @@ def case_forms(case, col=None):
         raise Violation(f"operand_modified:{inpl}", f"right operand changed by in-place {op}: {_render_case(case)}")
     if snap(a) != sa:
         raise Violation(f"operand_modified:{inpl}:source", f"in-place {op} on a copy changed the original: {_render_case(case)}")
+    if arr and op in ("mul", "div", "add", "sub", "floordiv", "mod") and r_plain[0] == "ok":
+        # in-place forms NumPy refuses although the plain form works (the result does not fit the integer dtype of the target, or its shape):
+        # the refusal must leave the target denoting what it denoted (never new units on the old numbers)
+        for label, mk_t, mk_b in (("int_target", lambda: ureg.Quantity(np.array([int(x) * 3, int(x) * 5 + 1], dtype=np.int64), a.units), lambda: b),
+                                  ("wider_operand", lambda: ureg.Quantity(a.magnitude.copy(), a.units), lambda: (ureg.Quantity(np.array([[float(y), 2.0], [3.0, 4.0]]), b.units) if hasattr(b, "_units") else np.array([[float(n) or 1.0, 2.0], [3.0, 4.0]])))):
+            t, bb = mk_t(), mk_b()
+            before = (t.magnitude.copy(), dict(t._units))
+            phys = lambda q_: (lambda r_: (np.asarray(q_.magnitude, dtype=float) * float(r_[0]), r_[2]))(R.resolve_compound({k: Fraction(v) for k, v in q_._units.items()}))  # noqa: E731
+            phys_before = phys(t)
+            keep = snap(bb) if hasattr(bb, "_units") else None
+            r_t = _run(lambda: getattr(operator, "i" + {"add": "add", "sub": "sub", "mul": "mul", "div": "truediv", "floordiv": "floordiv", "mod": "mod"}[op])(t, bb))
+            if r_t[0] != "err" or r_t[1] not in ("TypeError", "ValueError", "UFuncTypeError", "_UFuncOutputCastingError", "UFuncOutputCastingError"):
+                continue
+            col.count("refused_inplace_form") if col is not None else None
+            # (judged physically: a target re-expressed in an equivalent unit, e.g. radian -> dimensionless, still denotes the same quantity)
+            phys_after = phys(t)
+            if phys_after[1] != phys_before[1] or phys_after[0].shape != phys_before[0].shape or not np.allclose(phys_after[0], phys_before[0], rtol=1e-12, atol=0):
+                raise Violation(f"failed_inplace_form_changed_target:{op}:{label}", f"{_render_case(case)} [{label}]: the in-place form raised {r_t[1]} and left the target as {t!r}; it was {before[0]!r} {before[1]}")
+            if keep is not None and snap(bb) != keep:
+                raise Violation(f"operand_modified:{inpl}:after_refusal", f"{_render_case(case)} [{label}]")
 
 
 def _render_case(case):
